@@ -17,6 +17,14 @@ CLAIMS = {
         note="A1, A2, A4; trusted: numpy.vectorize contract (elementwise, dtype = otypes), z3/cvc5, the E1 encoder (cross-checked against CPython on seeded inputs each run); arguments that are computed columns are constrained by type only",
         ref="7 C03",
     ),
+    "C08": dict(
+        engine=E1,
+        level="proof",
+        technique="contract-based deductive verification: E1 safety obligations (subscripts resolve, no reachable raise, no unbound local) for every scalar rule of the real default-target DAG on every path, discharged by z3 under VALID and proved parent facts (assume-guarantee over the real DAG); graph obligations on the real DAG",
+        text="For every date class >= 2015-01-01: default targets exist, the real DAG is acyclic, roots are documented inputs, rounding specs exist, no unimplemented pointer aggregate is reachable, and every parameter/array subscript, raise and local-variable use of every reachable scalar rule is safe for all inputs (5337 obligations discharged). A refuted obligation's model is replayed on the real rule.",
+        note="A1-A4; VALID incl. date-dependent Mietstufen, <= 24 children per recipient, retirement not before 18; rounding=True; facts on aggregation/grouping/time nodes come from the kernel contracts (C11-C13); geburtsdatum/alter_monate (datetime) are assumed contracts; division by a data-dependent zero is C16's obligation (numpy yields inf, not an exception)",
+        ref="7 C08",
+    ),
     "C10": dict(
         engine=E1,
         level="proof",
@@ -41,6 +49,14 @@ CLAIMS = {
         note="A1 (float complement: thresholds +-1 ulp evaluation, bounded); date resolution of the raw yaml taken from the real loader (C07); numpy.searchsorted contract trusted",
         ref="7 C18",
     ),
+    "C19": dict(
+        engine=E1,
+        level="proof",
+        technique="contract-based deductive verification: strongest postconditions (E1) of the real rules composed along the real DAG into f_X(wage, ...); shape obligations (sign, two-copy monotonicity, zero below mini-job limit, constant above ceiling, no step at the zone boundary, shares sum to total) discharged by z3 in linear real arithmetic",
+        text="For every distinct (sozialv_beitr parameters, rule versions) content of the date classes >= 2015 and each of the four branches, 720 obligations over all wages, east/west, children and ages are discharged; counter-models are replayed through compute_taxes_and_transfers on a one-person table (cut-node values supplied as data).",
+        note="A1, A2, A4; regular employee (not self-employed, not privately insured); pension parts zero for the mini-job clause; rounding of minijob_grenze / midijob_faktor_f through the C10 contract; wage-independent large sub-DAGs (pension computation) are free symbols constrained by proved facts",
+        ref="7 C19",
+    ),
 }
 
 ENGINES = [
@@ -59,7 +75,7 @@ man = {
     },
     "engines": ENGINES,
     "checks": [],
-    "notes": "Contract-based deductive verification with self-generated verification conditions (no Python verifier exists in the sandbox). See DESIGN.md. fix: commits in /repo: be15bcc (C03 dtype), 27f9d05 (C10/C07 rounding offset).",
+    "notes": "Contract-based deductive verification with self-generated verification conditions (no Python verifier exists in the sandbox). See DESIGN.md. fix: commits in /repo: be15bcc (C03 dtype), 27f9d05 (C10/C07 rounding offset), 9be6802 and 4b2a097 (C08).",
     "not_applicable": [],
 }
 for p in props:
